@@ -512,6 +512,9 @@ func orchestrate(prop, tier string, seed uint64) int {
 				cmd.Stdout = lf
 				cmd.Stderr = lf
 				cmd.Env = append(os.Environ(), "GOTRACEBACK=all")
+				if prop == "C11" && os.Getenv("GOMAXPROCS") == "" {
+					cmd.Env = append(cmd.Env, fmt.Sprintf("GOMAXPROCS=%d", []int{2, 4, 16}[i%3]))
+				}
 				err := cmd.Run()
 				lf.Close()
 				rs, open := readJournal(outPath)
